@@ -118,6 +118,16 @@ CHECKS = {
             'rejected. Held on the references observed.',
             'Trusted: the generator\'s arithmetic on its own coordinates; vf/xlref for the function-position formulas. '
             'Reversed corners and titles containing quote/exclamation mark are not generated.'),
+    'C06': ('runtime monitoring: per-phase outcome classification at the boundary (translate / compile+load / members / file vs '
+            'class object), L1 dispatch trace, sys.monitoring step budget as bounded-progress monitor',
+            'Adversarial formula texts (token soups over the library\'s own lexicon, splices and token mutants of valid formulas, a '
+            'fixed list of ~150 degenerate texts, nesting probes of nine kinds up to depth 64, operator chains up to 400 operands) are '
+            'each translated on their own under a budget of logical steps; whole workbooks with hostile constants of every type and '
+            'unusual sheet titles are translated, loaded as class object and from the written file, every non-blank cell\'s member is '
+            'called on both and compared, titles/sizes compared with the workbook. Any foreign exception, unloadable text, missing '
+            'member, structural member failure, file/object difference or budget overrun is a violation. Held on the workbooks observed.',
+            'Trusted: CPython compile/exec, sys.monitoring. "Never hangs" is decided only as "within the step budget on every generated '
+            'input"; member failures that depend on the data (Excel errors) are not judged here.'),
     'C08': ('runtime monitoring: query history on one long-lived Executor checked offline against fresh-executor reference '
             'observations; icontract state-preservation contracts on get_cell/get_cells/get_sheet',
             'Random schedules (60 / 200 calls) of get_cell in four addressing spellings, get_cells with repeats and the same Cell '
